@@ -395,7 +395,7 @@ func c13RectRoundScope() *drv.Scope {
 
 func c13InflateScope() *drv.Scope {
 	f := famSimple(enum.Eax20, 4, 3)
-	cfgs := []offCfg{{2.5, clipper.Miter, 2, 0}, {-2.5, clipper.Square, 2, 0}, {7, clipper.Round, 2, 0.25}, {-7, clipper.Bevel, 2, 0}}
+	cfgs := []offCfg{{2.5, clipper.Miter, 2, 0}, {-2.5, clipper.Square, 2, 0}, {7, clipper.Round, 2, 0.25}, {-7, clipper.Bevel, 2, 0}, {12, clipper.Square, 2, 0}, {12, clipper.Miter, 1.2, 0}}
 	return &drv.Scope{Name: "magnitude/InflatePaths64 (translations)/" + f.name, Level: 2, Size: f.size,
 		Show: func(idx uint64) any {
 			gs, ok := f.gen(idx)
